@@ -96,6 +96,24 @@ def gen_case(run_seed: int, tier: str, index: int = 0) -> dict:
             if "same_as" not in specs[j]:
                 spec = {"same_as": j, **{k: specs[j][k] for k in ("kind", "dtype", "n", "shape", "name")}}
         specs.append(spec)
+    tied = None
+    if st.rng("template").random() < 0.1:
+        # directed template: a tied weight T (one tensor object used by two initializers) that is larger than the
+        # budget, laid out so that one shard holds T alone and the next one holds T again plus small tensors
+        tr = st.rng("template-body")
+        big = tr.choice([64, 200, 900])
+        budget = tr.choice([1, 16, big // 2])
+        small = [tr.randint(1, max(1, big // 4)) for _ in range(tr.choice([1, 2]))]
+        specs = [{"kind": tr.choice(["sim", "sim", "np", "lazy"]), "dtype": "UINT8", "n": big, "shape": [big], "name": "t0"}]
+        if specs[0]["kind"] == "sim":
+            specs[0]["pieces"] = tr.choice([1, 2])
+        if specs[0]["kind"] == "lazy":
+            specs[0].update(inner="sim", cache=tr.random() < 0.5, pieces=1)
+        specs.append({"same_as": 0, **{k: specs[0][k] for k in ("kind", "dtype", "n", "shape", "name")}})
+        for k_, nb_ in enumerate(small):
+            specs.append({"kind": "sim", "dtype": "UINT8", "n": nb_, "shape": [nb_], "name": f"t{2 + k_}", "pieces": 1})
+        n = len(specs)
+        tied = {"shard": big + sum(small), "workers": tr.choice([6, 8, 8, 12])}
     # graphs
     idxs = list(range(n))
     nsub = r.choice([0, 0, 0, 1, 2])
@@ -106,10 +124,13 @@ def gen_case(run_seed: int, tier: str, index: int = 0) -> dict:
     shard = None
     if r.random() < 0.4:
         shard = r.choice([1, 5, max(1, total // 2), max(1, total // 3), max(1, total // 5), total + 1])
+    if tied is not None:
+        graphs = [list(range(n))] + [[] for _ in range(nsub)]  # declaration order matters for the shard layout
+        shard = tied["shard"]
     options = {
-        "size_threshold_bytes": r.choice([0, 0, 0, 1, 16]),
+        "size_threshold_bytes": r.choice([0, 0, 0, 1, 16]) if tied is None else 0,
         "max_shard_size_bytes": shard,
-        "max_workers": r.choice([2, 2, 3, 3, 4, 8]),
+        "max_workers": r.choice([2, 2, 3, 3, 4, 8]) if tied is None else tied["workers"],
         "max_in_flight_bytes": budget,
         "alignment": r.choice([None, None, None, 4096, 1]),
         "align_threshold": r.choice([0, 0, 100]),
